@@ -31,7 +31,7 @@ var Metas = map[string]*Meta{
 			"inputs are sampled; the partition dimension is enumerated completely only for inputs <= 14 bytes",
 		},
 		Components: map[string]any{"real": realCommon, "simulated_environment": []string{"io.Reader (sim.Stream: delivery plan)", "storage: scratch directory on the real file system with plain / .gz / two-member .gz / missing / missing parent / path through a regular file"}, "stubbed": []string{}},
-		Runs:       map[string]int{"quick": 12000, "thorough": 900000},
+		Runs:       map[string]int{"quick": 12000, "thorough": 600000},
 		Run:        RunC06,
 		Setup:      SetupC18, // the same descriptor budget (RLIMIT_NOFILE=200): the "no descriptor left" configuration needs it
 	},
@@ -46,7 +46,7 @@ var Metas = map[string]*Meta{
 			"map iteration order inside ForEach is chosen by the simulator through the verif-tagged hook trie.SimKeyOrder; verdicts do not depend on the hook being reached",
 		},
 		Components: map[string]any{"real": []string{"biostuff trie (built from /repo's working tree with -tags verif)", "encoding/json"}, "simulated_environment": []string{"the caller: operation history, restart points, buffer reuse", "map iteration order in trie.keys() via the guarded hook"}, "stubbed": []string{}},
-		Runs:       map[string]int{"quick": 100000, "thorough": 3500000},
+		Runs:       map[string]int{"quick": 100000, "thorough": 900000},
 		Run:        RunC15,
 	},
 	"C16": {
@@ -78,7 +78,7 @@ var Metas = map[string]*Meta{
 			"an iterator that keeps reading (without calling back) after the consumer declined is not flagged: the property does not state it",
 		},
 		Components: map[string]any{"real": append([]string{"biostuff newick traversal, trie.ForEach, sequtil.CanonicalSubsequences"}, realCommon...), "simulated_environment": []string{"the consumer (stop position, style)", "io.Reader with delivery plan and fault", "storage configurations on the real file system", "map iteration order via the guarded hook"}, "stubbed": []string{}},
-		Runs:       map[string]int{"quick": 400000, "thorough": 20000000},
+		Runs:       map[string]int{"quick": 400000, "thorough": 8000000},
 		Run:        RunC18,
 		Setup:      SetupC18,
 	},
@@ -96,7 +96,7 @@ var Metas = map[string]*Meta{
 			"EINTR is not in the error palette: a reader may legitimately retry it",
 		},
 		Components: map[string]any{"real": realCommon, "simulated_environment": []string{"io.Reader (sim.Stream: delivery plan + fault)", "io.Writer (sim.Sink: acceptance plan)", "consumer that keeps iterating past errors", "storage: scratch directory on the real file system (directory-as-path, torn .gz)"}, "stubbed": []string{}},
-		Runs:       map[string]int{"quick": 10000, "thorough": 150000},
+		Runs:       map[string]int{"quick": 10000, "thorough": 120000},
 		Run:        RunC07,
 	},
 }
